@@ -124,6 +124,23 @@ def worker(chunk):
             r = f(tr, sem if infrag and 'error' not in sem else None)
             if r and (infrag or pid in monitors.EVERYWHERE):
                 viol[pid] = r[:3]
+        if monitors.plain_graph(tr['graph']) and 'error' not in sem:
+            # the hypotheses of the plain-fragment theorems hold on this program, and the reference evaluator
+            # Sem (the monitors' oracle) solves the dataflow equations the theorems are stated about
+            st = tr.setdefault('stats', {})
+            st['plain_programs'] = st.get('plain_programs', 0) + 1
+            if sem.get('plain_hyp'):
+                st['plain_hypotheses_hold'] = st.get('plain_hypotheses_hold', 0) + 1
+                if not (tr['spec'].get('cb') or {}):
+                    st['plain_hypotheses_hold_and_NoCb'] = st.get('plain_hypotheses_hold_and_NoCb', 0) + 1
+            elif not div:
+                div = {'why': 'a pipeline of plain Input dependencies does not satisfy the hypotheses (plainCheck) of the '
+                              'plain-fragment theorems', 'at': -1}
+            if sem.get('sem_solves'):
+                st['sem_is_solution'] = st.get('sem_is_solution', 0) + 1
+            elif not div:
+                div = {'why': 'the reference evaluator Sem does not solve the dataflow equations (Solution) on a plain '
+                              'pipeline', 'at': -1}
         for pid in want:
             hyp = monitors.HYPOTHESES.get(pid)
             if hyp and not div:
